@@ -48,7 +48,24 @@ def _run(beh, dtype):
         return [("left_t_interp(idx, vals, x, m)", interpolation.left_t_interp(_T(a["ix"], long), _T(a["iv"], dtype), _T(a["x"], dtype), a["m"]), E)]
     if k == "sparse_from_iv":
         sp = sparse.make_sparse_from_indices_and_values(_T(a["ix"], long), _T(a["iv"], dtype), a["m"])
-        return [("make_sparse_from_indices_and_values(idx, vals, m).to_dense()", sp.to_dense(), E)]
+        outs = [("make_sparse_from_indices_and_values(idx, vals, m).to_dense()", sp.to_dense(), E)]
+        # scalar lookups in the (un-coalesced) interpolation matrix: entry by entry the same as its densification - also when two
+        # interpolation points coincide (duplicate coordinates, whose values add up)
+        ix = _T(a["ix"], long)
+        variants = [("", sp)]
+        if ix.shape[-1] >= 2:
+            ixd = ix.clone()
+            ixd[..., 1] = ixd[..., 0]
+            variants.append((" [coinciding interpolation points]", sparse.make_sparse_from_indices_and_values(ixd, _T(a["iv"], dtype), a["m"])))
+        for tag, s in variants:
+            if s.dim() > 2:
+                continue          # sparse_getitem is specified for 1-d / 2-d sparse tensors only
+            D = s.to_dense()
+            import itertools
+
+            got = torch.stack([torch.as_tensor(sparse.sparse_getitem(s, idx), dtype=dtype).reshape(()) for idx in itertools.product(*[range(k_) for k_ in D.shape])]).reshape(D.shape)
+            outs.append(("sparse_getitem(S, (i, j)) for all entries" + tag, got, dict(tensor=D)))
+        return outs
     if k in ("bdsmm", "dsmm"):
         S = _T(a["s"], dtype)
         X = _T(a["x"], dtype)
@@ -89,7 +106,12 @@ def _run(beh, dtype):
         if k == "qr":
             Q, Rr = stable_qr(A)
             fin = torch.tensor(float(torch.isfinite(Q).all() and torch.isfinite(Rr).all()))
+            # the stabilisation may touch only what is singular: Q R - A is the 1e-6 jitter times q_j in the zero column j and rounding elsewhere
+            zc = (A.abs().sum(-2) == 0)                                          # (..., cols)
+            dev = ((Q @ Rr - A) * (~zc).unsqueeze(-2).to(dtype)).abs().max() / max(1.0, float(A.abs().max()))
+            thr = 1e-10 if dtype == torch.float64 else 1e-4
             return [("stable_qr (zero column): finite", fin, dict(tensor=torch.tensor(1.0))),
+                    ("stable_qr (zero column): Q R = A on the regular columns (deviation %.2g)" % float(dev), torch.tensor(float(dev <= thr)), dict(tensor=torch.tensor(1.0))),
                     ("stable_qr (zero column): Q R ~ A", (Q @ Rr - A).abs().max().clamp_min(1e-3).log10().floor(), dict(tensor=torch.tensor(-3.0)))]
         P = stable_pinverse(A)
         fin = torch.tensor(float(torch.isfinite(P).all()))
@@ -127,7 +149,8 @@ def _replay(beh):
                 elif numeric.rel_err(g, ref) > numeric.tol(dtype) * 100:
                     fails.append((str(dtype)[6:], label, "value mismatch: relative error %.3g" % numeric.rel_err(g, ref)))
                 continue
-            msg, err = compare_tensor(exp, got if torch.is_tensor(got) else torch.tensor(got), dtype, loose=50.0, check_dtype=False)
+            # (float64: measured <= 1e-13 x scale on the unchanged tree for every kernel; a single-precision intermediate costs >= 1e-8)
+            msg, err = compare_tensor(exp, got if torch.is_tensor(got) else torch.tensor(got), dtype, loose=50.0 if dtype == torch.float32 else 0.01, check_dtype=False)
             if msg:
                 fails.append((str(dtype)[6:], label, msg))
     return fails
